@@ -123,6 +123,15 @@ def rule_rule(c, prog):
         n0 = core.strip(n)
         if n0.get("k") == "Assign":
             rhs = core.strip(n0["r"])
+            if (n0["l"].get("ty") or "") == "rbx_types::referent::Ref":
+                # the payload of a `Variant::Ref(slot)` written through its `&mut Ref`
+                a = rhs
+                while a.get("k") in ("Unary", "AddrOf"):
+                    a = core.strip(a["e"])
+                if a.get("k") == "Call" and a["f"].get("def") == "rbx_types::referent::Ref::none":
+                    return "value := Ref::none"
+                if a.get("res") == "local":
+                    return "value := mapped"
             if rhs.get("k") == "Call" and rhs["f"].get("def") == REF_VARIANT:
                 a = core.strip(rhs["args"][0])
                 if a.get("k") == "Call" and a["f"].get("def") == "rbx_types::referent::Ref::none":
